@@ -70,11 +70,23 @@ class Lit:
 class Blk:
     """Block of `n` elements (n: int or z3 Int term) given by a host closure index-term -> value."""
 
-    __slots__ = ("n", "fn")
+    __slots__ = ("n", "fn", "memo")
 
     def __init__(self, n, fn):
         self.n = n
         self.fn = fn
+        self.memo = {}
+
+    def at(self, idx):
+        """element at idx; container-valued elements are created once per (block, index term) so that reading the same
+        element twice yields the same host object (identity / aliasing is then observable, in-place changes persist)"""
+        key = idx if isinstance(idx, int) else (idx.sexpr() if hasattr(idx, "sexpr") else None)
+        if key is not None and key in self.memo:
+            return self.memo[key]
+        val = self.fn(idx)
+        if key is not None and isinstance(val, (Arr2V, SeqV, MapV, Obj)):
+            self.memo[key] = val
+        return val
 
 
 class SeqV:
